@@ -934,7 +934,22 @@ fn run_case(
                 let pos = obs.bytes().zip(pristine_obs.bytes()).position(|(a, b)| a != b).unwrap_or(obs.len().min(pristine_obs.len()));
                 let ctx_a: String = obs.chars().skip(pos.saturating_sub(30)).take(90).collect();
                 let ctx_b: String = pristine_obs.chars().skip(pos.saturating_sub(30)).take(90).collect();
-                let what = if kind == "sst" { format!("silent-difference@{region}") } else { "silent-difference".to_string() };
+                // for a table: does only the metadata taken from the final block differ, or also
+                // what walks and point reads return?
+                let sections = |o: &str| -> (String, String) {
+                    match o.find(" fwd[") {
+                        Some(i) => (o[..i].to_string(), o[i..].to_string()),
+                        None => (o.to_string(), String::new()),
+                    }
+                };
+                let what = if kind == "sst" {
+                    let (md_a, data_a) = sections(&obs);
+                    let (md_b, data_b) = sections(pristine_obs);
+                    let part = if data_a == data_b { "metadata-only" } else if md_a == md_b { "walks-or-reads" } else { "metadata-and-walks-or-reads" };
+                    format!("silent-difference@{region}:{part}")
+                } else {
+                    "silent-difference".to_string()
+                };
                 viol = Some((what, format!("damaged observation `…{ctx_a}…` vs pristine `…{ctx_b}…`")));
             }
         }
